@@ -8,7 +8,13 @@
  *                                                                          on with a negative size corrupts the heap); the grammar additionally admits %lc.  Used for
  *                                                                          specifications libc REJECTS (negative result): %lc with a wide character the "C" locale
  *                                                                          cannot encode, a width/precision that overflows int
+ *   A <start> <old> <fmt> <nargs> <arg>... T ...                           print_to_with on a plain String in a forked child; an argument `Z 0` is the String itself
+ *                                                                          (aliasing).  Prints `O A oob=0 exc=<e>` or, when the child dies, `O A oob=1`
  *   arg ::= i <int64> | f <16 hex digits: bits of the double> | s <bytes> | A <n> <arg>... | U <n> <arg>... | L <n> <arg>...
+ *         | H <n> (<key> <val>)*n   Table Int -> scalar, `set` in this order      | R <n> (<key> <val>)*n   Tree Int -> scalar
+ *         | G 3 i <start> i <stop> i <step>   Range                              | C <n> <arg>...          Slice over an Array of n scalars
+ *         | X 1 <arg> | X 0   Box holding the object / NULL                       | N 0   NULL
+ *         | O <name>   an object of a type without Show (File, Ref, NoShow)        | Y <name>   a Type object      | Z 0   the sink itself (op A only)
  *
  * For a P/K op the format is first split by an independent reference parser of the grammar
  *   literal | %% | % flags* digits* (. digits*)? lenmod conv      (see `parse_fmt`);
@@ -61,7 +67,7 @@ static void hex_of(const unsigned char* p, size_t n, Buf* out) {
 static int has_nul(const Buf* b) { return memchr(b->p, 0, b->n) != NULL; }
 
 /* ------------------------------------------------------------------ arguments */
-typedef struct ArgD { char kind; int64_t i; double d; uint64_t bits; Buf s; int n; struct ArgD** items; var obj; } ArgD;
+typedef struct ArgD { char kind; int64_t i; double d; uint64_t bits; Buf s; int n; struct ArgD** items; var obj; var aux; } ArgD;
 
 static void arg_free(ArgD* a) {
   if (!a) return;
@@ -70,6 +76,9 @@ static void arg_free(ArgD* a) {
 }
 static int parse_i64(const char* s, int64_t* v) { char* e; errno = 0; long long x = strtoll(s, &e, 10); if (errno || *e || e == s) return 0; *v = x; return 1; }
 static int is_scalar(char k) { return k == 'i' || k == 'f' || k == 's'; }
+static const char* OTHER_NAMES[] = { "File", "Ref", "NoShow", NULL };
+static const char* TYPE_NAMES[] = { "Int", "Float", "String", "Array", "List", "Tuple", "Table", "Tree", "File", "Range", "Slice", "Box", "Ref", "Type", NULL };
+static int name_in(const char* n, const char** set) { for (int k = 0; set[k]; k++) if (!strcmp(n, set[k])) return 1; return 0; }
 
 static ArgD* parse_arg(char** tok, int ntok, int* k) {
   if (*k + 1 >= ntok) return NULL;
@@ -90,12 +99,51 @@ static ArgD* parse_arg(char** tok, int ntok, int* k) {
       for (int64_t j = 0; j < n; j++) { ArgD* c = parse_arg(tok, ntok, k); if (!c) { arg_free(a); return NULL; } a->items[a->n++] = c; }
       if (a->kind != 'U') for (int j = 0; j < a->n; j++) if (!is_scalar(a->items[j]->kind) || a->items[j]->kind != a->items[0]->kind) { arg_free(a); return NULL; }
       break; }
+    case 'C': {   /* Slice over an Array of scalars of one kind */
+      int64_t n; if (!parse_i64(v, &n) || n < 0 || n > 1000) { arg_free(a); return NULL; }
+      a->items = calloc((size_t)n + 1, sizeof(ArgD*));
+      for (int64_t j = 0; j < n; j++) { ArgD* c = parse_arg(tok, ntok, k); if (!c) { arg_free(a); return NULL; } a->items[a->n++] = c; }
+      for (int j = 0; j < a->n; j++) if (!is_scalar(a->items[j]->kind) || a->items[j]->kind != a->items[0]->kind) { arg_free(a); return NULL; }
+      break; }
+    case 'H': case 'R': {   /* n pairs: items[2j] = key (Int), items[2j+1] = value (scalars of one kind) */
+      int64_t n; if (!parse_i64(v, &n) || n < 0 || n > 500) { arg_free(a); return NULL; }
+      a->items = calloc(2 * (size_t)n + 1, sizeof(ArgD*));
+      for (int64_t j = 0; j < 2 * n; j++) { ArgD* c = parse_arg(tok, ntok, k); if (!c) { arg_free(a); return NULL; } a->items[a->n++] = c; }
+      for (int j = 0; j < a->n; j += 2) if (a->items[j]->kind != 'i' || !is_scalar(a->items[j+1]->kind) || a->items[j+1]->kind != a->items[1]->kind) { arg_free(a); return NULL; }
+      break; }
+    case 'G': {
+      int64_t n; if (!parse_i64(v, &n) || n != 3) { arg_free(a); return NULL; }
+      a->items = calloc(4, sizeof(ArgD*));
+      for (int j = 0; j < 3; j++) { ArgD* c = parse_arg(tok, ntok, k); if (!c || c->kind != 'i') { arg_free(c); arg_free(a); return NULL; } a->items[a->n++] = c; }
+      break; }
+    case 'X': {
+      int64_t n; if (!parse_i64(v, &n) || n < 0 || n > 1) { arg_free(a); return NULL; }
+      a->items = calloc(2, sizeof(ArgD*));
+      if (n == 1) { ArgD* c = parse_arg(tok, ntok, k); if (!c) { arg_free(a); return NULL; } a->items[a->n++] = c; }
+      break; }
+    case 'N': case 'Z': if (strcmp(v, "0") != 0) { arg_free(a); return NULL; } break;
+    case 'O': if (!unhex(v, &a->s) || has_nul(&a->s) || !name_in((char*)a->s.p, OTHER_NAMES)) { arg_free(a); return NULL; } break;
+    case 'Y': if (!unhex(v, &a->s) || has_nul(&a->s) || !name_in((char*)a->s.p, TYPE_NAMES)) { arg_free(a); return NULL; } break;
     default: arg_free(a); return NULL;
   }
   return a;
 }
 
 static var elem_type(ArgD* a) { if (a->n == 0) return Int; switch (a->items[0]->kind) { case 'i': return Int; case 'f': return Float; default: return String; } }
+
+struct NoShow { int x; };
+static size_t NoShow_Len(var self) { return 0; }
+var NoShow = Cello(NoShow, Instance(Len, NoShow_Len));
+
+static var the_sink = NULL;    /* what an argument `Z 0` denotes (op A) */
+static int has_kind(const ArgD* a, char k) { if (a->kind == k) return 1; for (int j = 0; j < a->n; j++) if (has_kind(a->items[j], k)) return 1; return 0; }
+static var type_by_name(const char* n) {
+  var T[] = { Int, Float, String, Array, List, Tuple, Table, Tree, File, Range, Slice, Box, Ref, Type };
+  for (int k = 0; TYPE_NAMES[k]; k++) if (!strcmp(n, TYPE_NAMES[k])) return T[k];
+  return NULL;
+}
+static var scalar_type(char k) { return k == 'i' ? Int : k == 'f' ? Float : String; }
+#define scalar_tmp(c) ((c)->kind == 'i' ? (var)$I((c)->i) : (c)->kind == 'f' ? (var)$F((c)->d) : (var)$S((char*)(c)->s.p))   /* stack objects: a macro */
 
 static void build(ArgD* a) {
   switch (a->kind) {
@@ -113,11 +161,39 @@ static void build(ArgD* a) {
       a->obj = new_raw(Tuple);
       for (int k = 0; k < a->n; k++) { build(a->items[k]); push(a->obj, a->items[k]->obj); }
       break;
+    case 'H': case 'R':
+      a->obj = a->kind == 'H' ? (var)new_raw(Table, Int, a->n ? scalar_type(a->items[1]->kind) : Int)
+                              : (var)new_raw(Tree, Int, a->n ? scalar_type(a->items[1]->kind) : Int);
+      for (int k = 0; k < a->n; k += 2) set(a->obj, $I(a->items[k]->i), scalar_tmp(a->items[k+1]));
+      break;
+    /* Range and Slice keep GC-managed sub-objects (`r->value = new(Int)`, `s->range = new(Range)`): they must be reachable for the collector — roots */
+    case 'G': a->obj = new_root(Range, $I(a->items[0]->i), $I(a->items[1]->i), $I(a->items[2]->i)); break;
+    case 'C': {   /* the Array lives in a->aux, the Slice over all of it is the object */
+      a->aux = new_raw(Array, elem_type(a));
+      for (int k = 0; k < a->n; k++) push(a->aux, scalar_tmp(a->items[k]));
+      a->obj = new_root(Slice, a->aux);
+      break; }
+    case 'X':
+      a->obj = alloc_raw(Box);
+      if (a->n) { build(a->items[0]); ((struct Box*)a->obj)->val = a->items[0]->obj; } else ((struct Box*)a->obj)->val = NULL;
+      break;
+    case 'N': a->obj = NULL; break;
+    case 'Z': a->obj = the_sink; break;
+    case 'O':
+      if (!strcmp((char*)a->s.p, "File")) a->obj = new_raw(File);
+      else if (!strcmp((char*)a->s.p, "Ref")) { a->obj = alloc_raw(Ref); ((struct Ref*)a->obj)->val = NULL; }
+      else a->obj = alloc_raw(NoShow);
+      break;
+    case 'Y': a->obj = type_by_name((char*)a->s.p); break;
   }
 }
 static void unbuild(ArgD* a) {
-  if (a->kind == 'U') for (int k = 0; k < a->n; k++) unbuild(a->items[k]);
+  if (a->kind == 'U' || a->kind == 'X') for (int k = 0; k < a->n; k++) unbuild(a->items[k]);
+  if (a->kind == 'N' || a->kind == 'Z' || a->kind == 'Y') { a->obj = NULL; return; }
+  if (a->kind == 'X' || (a->kind == 'O' && strcmp((char*)a->s.p, "File") != 0)) { if (a->obj) dealloc_raw(a->obj); a->obj = NULL; return; }
+  if (a->kind == 'G' || a->kind == 'C') { if (a->obj) del_root(a->obj); a->obj = NULL; }
   if (a->obj) { del_raw(a->obj); a->obj = NULL; }
+  if (a->aux) { del_raw(a->aux); a->aux = NULL; }
 }
 
 /* ------------------------------------------------------------------ reference parser of the grammar */
@@ -180,6 +256,42 @@ static void ref_show(ArgD* a, Buf* out) {
     case 'A': putf(out, "<'Array' At 0x%p [", a->obj); ref_items(a, out); buf_puts(out, "]>"); break;
     case 'L': putf(out, "<'List' At 0x%p [", a->obj); ref_items(a, out); buf_puts(out, "]>"); break;
     case 'U': buf_puts(out, "tuple("); ref_items(a, out); buf_puts(out, ")"); break;
+    case 'C': putf(out, "<'Slice' At 0x%p [", a->obj); ref_items(a, out); buf_puts(out, "]>"); break;
+    case 'G': {   /* the values a Range yields: start, start+step, ... below stop (step > 0); stop-1, stop-1+step, ... not below start (step < 0) */
+      int64_t st = a->items[0]->i, sp = a->items[1]->i, se = a->items[2]->i; int first = 1;
+      putf(out, "<'Range' At 0x%p [", a->obj);
+      if (se > 0) for (int64_t v = st; v < sp; v += se) { if (!first) buf_puts(out, ", "); first = 0; putf(out, "%i", (int)v); }
+      if (se < 0) for (int64_t v = sp - 1; v >= st; v += se) { if (!first) buf_puts(out, ", "); first = 0; putf(out, "%i", (int)v); }
+      buf_puts(out, "]>"); break; }
+    case 'H': {   /* each pair once, in the order the Table's own iteration gives; value = the LAST one set for that key in the op */
+      putf(out, "<'Table' At 0x%p {", a->obj);
+      size_t seen = 0, distinct = 0;
+      for (int k = 0; k < a->n; k += 2) { int dup = 0; for (int j = k + 2; j < a->n; j += 2) if (a->items[j]->i == a->items[k]->i) dup = 1; if (!dup) distinct++; }
+      foreach (key in a->obj) {
+        int64_t kv = c_int(key); ArgD* val = NULL;
+        for (int k = 0; k < a->n; k += 2) if (a->items[k]->i == kv) val = a->items[k+1];
+        if (seen++) buf_puts(out, ", ");
+        putf(out, "%ld", (long)kv); buf_puts(out, ":");
+        if (val) ref_show(val, out); else buf_puts(out, "<key-not-in-op>");
+      }
+      if (seen != distinct) buf_puts(out, "<iteration-count-differs>");
+      buf_puts(out, "}>"); break; }
+    case 'R': {   /* distinct keys in the Tree's iteration order: DESCENDING (Tree_Set descends by cmp(node key, key) < 0 -> left; iteration starts leftmost) */
+      putf(out, "<'Tree' At 0x%p {", a->obj);
+      int first = 1; int64_t last = 0;
+      for (;;) {
+        ArgD* best = NULL; int64_t bk = 0;
+        for (int k = 0; k < a->n; k += 2) { int64_t kv = a->items[k]->i; if ((first || kv < last) && (!best || kv >= bk)) { best = a->items[k+1]; bk = kv; } }
+        if (!best) break;
+        if (!first) buf_puts(out, ", ");
+        putf(out, "%ld", (long)bk); buf_puts(out, ":"); ref_show(best, out);
+        first = 0; last = bk;
+      }
+      buf_puts(out, "}>"); break; }
+    case 'X': putf(out, "<'Box' at 0x%p (", a->obj); if (a->n) ref_show(a->items[0], out); else buf_puts(out, "<NULL>"); buf_puts(out, ")>"); break;
+    case 'N': buf_puts(out, "<NULL>"); break;
+    case 'O': buf_puts(out, "<'"); buf_put(out, a->s.p, a->s.n); putf(out, "' At 0x%p>", a->obj); break;
+    case 'Y': buf_put(out, a->s.p, a->s.n); break;    /* what show of a Type object must write: its name */
   }
 }
 /* the class a conversion needs: 'i' Int, 'f' Float, 's' String, 'p'/'$' anything */
@@ -281,7 +393,7 @@ static int whole_format(const OpD* op, const SegD* segs, int ns, Buf* out) {
     if (segs[s].kind != 2) continue;
     if (k >= op->nargs) return 0;
     ArgD* a = op->args[k++]; char conv = segs[s].conv;
-    if (conv == '$' || need_of(conv) != a->kind && need_of(conv) != '*') return 0;
+    if (conv == '$' || (need_of(conv) != a->kind && need_of(conv) != '*' && !(need_of(conv) == 's' && a->kind == 'Y'))) return 0;
     if (strchr(FLTC, conv)) { if (nd == 8) return 0; d[nd++] = a->d; }
     else { if (ng == 4) return 0; g[ng++] = conv == 's' ? (uint64_t)(uintptr_t)a->s.p : conv == 'p' ? (uint64_t)(uintptr_t)a->obj : (uint64_t)a->i; }
   }
@@ -297,6 +409,8 @@ static void run_P(OpD* op, size_t line, int claim_unchanged, int wide) {
   int ns = parse_fmt(op->fmt.p, op->fmt.n, &segs, wide);
   if (ns < 0) { O("outside-grammar"); return; }
   n_ops++;
+  int typeshow = 0;     /* a Type object is shown by %$: known finding KF-C14-type-show (Type_Show returns a length, not a position) */
+#define SIG(s) (typeshow ? "fmt-type-show" : (s))
   for (int k = 0; k < op->nargs; k++) build(op->args[k]);
   var* items = calloc((size_t)op->nargs + 1, sizeof(var));
   for (int k = 0; k < op->nargs; k++) items[k] = op->args[k]->obj;
@@ -317,14 +431,15 @@ static void run_P(OpD* op, size_t line, int claim_unchanged, int wide) {
       if (karg >= op->nargs) { exp_exc = "FormatError"; stop_seg = s; n_toofew++; break; }
       ArgD* a = op->args[karg++];
       char need = need_of(g->conv);
-      if (need != '*' && need != a->kind) { exp_exc = "ClassError"; stop_seg = s; break; }
-      if (g->conv == '$') n_show++;
+      if (need != '*' && a->kind == 'N') { exp_exc = "ValueError"; stop_seg = s; break; }       /* c_int / c_float / c_str of NULL: type_of refuses */
+      if (need != '*' && need != a->kind && !(need == 's' && a->kind == 'Y')) { exp_exc = "ClassError"; stop_seg = s; break; }
+      if (g->conv == '$') { n_show++; if (has_kind(a, 'Y')) typeshow = 1; }
       buf_reset(&spec); buf_put(&spec, op->fmt.p + g->off, g->len);
       if (ref_spec((const char*)spec.p, g, a, &exp) < 0) { exp_exc = "FormatError"; stop_seg = s; rejected = 1; n_rej++; karg--; break; }
     }
   }
   int nsp = 0; for (int s = 0; s < ns; s++) if (segs[s].kind == 2) nsp++;
-  if (!rejected && (nsp > op->nargs) != (strcmp(exp_exc, "FormatError") == 0) && strcmp(exp_exc, "ClassError") != 0)
+  if (!rejected && (nsp > op->nargs) != (strcmp(exp_exc, "FormatError") == 0) && strcmp(exp_exc, "ClassError") != 0 && strcmp(exp_exc, "ValueError") != 0)
     X("sig=harness-internal line=%zu what=oracle bookkeeping", line);
 
   /* ---- W: recording sink in front of a String */
@@ -342,16 +457,17 @@ static void run_P(OpD* op, size_t line, int claim_unchanged, int wide) {
     end += rec_calls[k].ret; n_acc++;
     if (rec_calls[k].vk == 'p') ptr_extra += rec_calls[k].ret - 3;
   }
-  if (!tiled) X("sig=fmt-position line=%zu what=format_to calls are not made at consecutive positions from the start position", line);
-  if (exc == NULL && posW != end) X("sig=fmt-position line=%zu what=returned position %d but the calls end at %d", line, posW, end);
-  if (exc == NULL && n_acc != rec_n) X("sig=fmt-reject line=%zu what=a format_to call returned a negative result and print_to_with did not raise", line);
+  if (!tiled) X("sig=%s line=%zu what=format_to calls are not made at consecutive positions from the start position", SIG("fmt-position"), line);
+  if (exc == NULL && posW != end) X("sig=%s line=%zu what=returned position %d but the calls end at %d", SIG("fmt-position"), line, posW, end);
+  if (exc == NULL && n_acc != rec_n) X("sig=%s line=%zu what=a format_to call returned a negative result and print_to_with did not raise", SIG("fmt-reject"), line);
   /* a String that received no accepted format_to call is untouched (all of <old>); after one it ends where the call ended */
   const char* valW = ((struct String*)inner)->val;
-  if (valW == NULL) { X("sig=fmt-output line=%zu what=String sink has lost its buffer (val is NULL) after %s", line, excW); valW = ""; }
+  if (valW == NULL) { X("sig=%s line=%zu what=String sink has lost its buffer (val is NULL) after %s", SIG("fmt-output"), line, excW); valW = ""; }
   size_t rawW_n = n_acc == 0 ? op->old.n : (size_t)end; unsigned char* rawW = malloc(rawW_n + 1);
   if (((struct String*)inner)->val == NULL) rawW_n = 0;      /* (text written by %c can contain NUL bytes: no strlen here) */
+  if (!tiled && strlen(valW) < rawW_n) rawW_n = strlen(valW);  /* the bookkeeping is off already (reported above): stay inside the block */
   memcpy(rawW, valW, rawW_n); rawW[rawW_n] = 0;
-  if (n_acc == 0 && strlen(valW) != op->old.n) X("sig=fmt-output line=%zu what=String sink changed although libc accepted no format_to call", line);
+  if (n_acc == 0 && strlen(valW) != op->old.n) X("sig=%s line=%zu what=String sink changed although libc accepted no format_to call", SIG("fmt-output"), line);
   /* canonical text: pointer renderings replaced; `canonF` = what a File holding old[0..start) must contain */
   Buf canon = {0}, canonF = {0}; buf_reset(&canon); buf_reset(&canonF);
   buf_put(&canonF, op->old.p, (size_t)op->start);
@@ -360,6 +476,7 @@ static void run_P(OpD* op, size_t line, int claim_unchanged, int wide) {
     if (rec_calls[k].vk == 'p') { buf_puts(&canon, "<P>"); buf_puts(&canonF, "<P>"); }
     else { buf_put(&canon, rec_calls[k].out, (size_t)rec_calls[k].ret); buf_put(&canonF, rec_calls[k].out, (size_t)rec_calls[k].ret); }
   }
+  if (!tiled && typeshow) { buf_reset(&canon); buf_put(&canon, valW, strlen(valW)); }   /* known finding: positions jump; show the String as it is */
   Buf hxF = {0}; buf_reset(&hxF); hex_of(canonF.p, canonF.n, &hxF);
   Buf line_ = {0}; buf_reset(&line_);
   Buf cl = {0}; buf_reset(&cl);
@@ -384,10 +501,10 @@ static void run_P(OpD* op, size_t line, int claim_unchanged, int wide) {
 
   /* ---- oracle checks on W */
   if (strcmp(excW, exp_exc) != 0) {
-    if (rejected) X("sig=fmt-reject line=%zu what=libc rejects specification %d (negative result): expected FormatError, got %s", line, stop_seg, excW);
+    if (rejected) X("sig=%s line=%zu what=libc rejects specification %d (negative result): expected FormatError, got %s", SIG("fmt-reject"), line, stop_seg, excW);
     else if (!strcmp(exp_exc, "FormatError") || !strcmp(excW, "FormatError"))
-      X("sig=fmt-toofew line=%zu what=%d specifications, %d arguments: expected %s, got %s", line, nsp, op->nargs, exp_exc, excW);
-    else X("sig=fmt-exc line=%zu what=expected exception %s, got %s", line, exp_exc, excW);
+      X("sig=%s line=%zu what=%d specifications, %d arguments: expected %s, got %s", SIG("fmt-toofew"), line, nsp, op->nargs, exp_exc, excW);
+    else X("sig=%s line=%zu what=expected exception %s, got %s", SIG("fmt-exc"), line, exp_exc, excW);
   }
   {
     Buf want = {0}; buf_reset(&want);
@@ -395,17 +512,17 @@ static void run_P(OpD* op, size_t line, int claim_unchanged, int wide) {
     else { buf_put(&want, op->old.p, (size_t)op->start); buf_put(&want, exp.p, exp.n); }
     if (want.n != rawW_n || memcmp(want.p, rawW, rawW_n) != 0) {
       Buf a = {0}, b = {0}; buf_reset(&a); buf_reset(&b); hex_of(rawW, rawW_n, &a); hex_of(want.p, want.n, &b);
-      X("sig=fmt-output line=%zu what=String sink holds %s, the C printf family writes %s", line, (char*)a.p, (char*)b.p);
+      X("sig=%s line=%zu what=String sink holds %s, the C printf family writes %s", SIG("fmt-output"), line, (char*)a.p, (char*)b.p);
       buf_free(&a); buf_free(&b);
     }
     if (exc == NULL && (long)posW != (long)op->start + (long)exp.n)
-      X("sig=fmt-position line=%zu what=returned %d, start %d + %zu characters written", line, posW, op->start, exp.n);
+      X("sig=%s line=%zu what=returned %d, start %d + %zu characters written", SIG("fmt-position"), line, posW, op->start, exp.n);
     if (exc == NULL && strcmp(exp_exc, "none") == 0) {
       Buf whole = {0}; buf_reset(&whole);
       if (whole_format(op, segs, ns, &whole)) {
         n_whole++;
         if (whole.n != exp.n || memcmp(whole.p, exp.p, exp.n) != 0 || (stop_seg != 0 && (whole.n + (size_t)op->start != rawW_n || memcmp(whole.p, rawW + op->start, whole.n) != 0)))
-          X("sig=fmt-output line=%zu what=one snprintf call with the whole format gives a different text", line);
+          X("sig=%s line=%zu what=one snprintf call with the whole format gives a different text", SIG("fmt-output"), line);
       }
       buf_free(&whole);
     }
@@ -448,7 +565,7 @@ static void run_P(OpD* op, size_t line, int claim_unchanged, int wide) {
       c++;
     }
     if (!bad && c != rec_n) { bad = 1; snprintf(why, sizeof why, "%zu calls recorded, %zu expected", rec_n, c); }
-    if (bad) X("sig=fmt-segments line=%zu what=format_to calls differ from the segments of the format: %s", line, why);
+    if (bad) X("sig=%s line=%zu what=format_to calls differ from the segments of the format: %s", SIG("fmt-segments"), line, why);
   }
   if (claim_unchanged && exc == FormatError) {
     if (strlen(((struct String*)inner)->val) != op->old.n || memcmp(((struct String*)inner)->val, op->old.p, op->old.n) != 0)
@@ -465,7 +582,7 @@ static void run_P(OpD* op, size_t line, int claim_unchanged, int wide) {
     else {
       Buf a = {0}; buf_reset(&a); size_t l2 = strlen(valS); hex_of((unsigned char*)valS, l2, &a);
       O("S exc=%s pos=%d raw=%s", v_exc_name(excS), posS, (char*)a.p);
-      X("sig=fmt-recsink line=%zu what=plain String sink differs from the recorded run", line);
+      X("sig=%s line=%zu what=plain String sink differs from the recorded run", SIG("fmt-recsink"), line);
       buf_free(&a);
     }
   }
@@ -488,8 +605,9 @@ static void run_P(OpD* op, size_t line, int claim_unchanged, int wide) {
     if (same) O("F exc=%s pos=%s out=%s", v_exc_name(excF), posbuf, (char*)hxF.p);
     else {
       Buf a = {0}; buf_reset(&a); hex_of(fb, got, &a);
-      O("F exc=%s pos=%d raw=%s", v_exc_name(excF), posF, (char*)a.p);
-      X("sig=fmt-sinks line=%zu what=File sink received different text or position than the String sink (File pos %d, String pos %d)", line, posF, posW);
+      if (typeshow && excF == NULL) O("F exc=none pos=%d out=%s", posF, (char*)a.p);      /* known finding: the File has the whole text, the position is wrong */
+      else O("F exc=%s pos=%d raw=%s", v_exc_name(excF), posF, (char*)a.p);
+      X("sig=%s line=%zu what=File sink received different text or position than the String sink (File pos %d, String pos %d)", SIG("fmt-sinks"), line, posF, posW);
       buf_free(&a);
     }
     free(fb);
@@ -500,6 +618,7 @@ static void run_P(OpD* op, size_t line, int claim_unchanged, int wide) {
   free(rawW); buf_free(&canon); buf_free(&canonF); buf_free(&hxF); buf_free(&cl); buf_free(&hx); buf_free(&line_); buf_free(&exp); buf_free(&spec);
   for (int k = 0; k < op->nargs; k++) unbuild(op->args[k]);
   free(items); free(segs);
+#undef SIG
 }
 
 static void run_M(OpD* op, size_t line) {
@@ -545,6 +664,39 @@ static void run_J(OpD* op, size_t line) {
   }
 }
 
+/* op A: a plain String sink that may be its own argument (`Z 0`), in a forked child under ASan */
+static void run_A(OpD* op, size_t line) {
+  fflush(stdout);
+  pid_t pid = fork();
+  if (pid == 0) {
+    int dn = open("/dev/null", 1); if (dn >= 0) { dup2(dn, 2); }
+    alarm(20);
+    var s = new_raw(String, $S((char*)op->old.p));
+    the_sink = s;
+    for (int k = 0; k < op->nargs; k++) build(op->args[k]);
+    var* items = calloc((size_t)op->nargs + 1, sizeof(var));
+    for (int k = 0; k < op->nargs; k++) items[k] = op->args[k]->obj;
+    items[op->nargs] = Terminal;
+    var args = $(Tuple, items);
+    var exc; int pos = 0;
+    V_TRY(exc, pos = print_to_with(s, op->start, (const char*)op->fmt.p, args));
+    (void)pos;
+    volatile size_t l = ((struct String*)s)->val ? strlen(((struct String*)s)->val) : 0; (void)l;
+    O("A oob=0 exc=%s", v_exc_name(exc));
+    fflush(stdout);
+    _exit(0);
+  }
+  int st = 0; waitpid(pid, &st, 0);
+  int died = WIFSIGNALED(st) || (WIFEXITED(st) && WEXITSTATUS(st) != 0);
+  I("A line=%zu status=%d", line, st);
+  if (died) {
+    O("A oob=1");
+    int alias = 0; for (int k = 0; k < op->nargs; k++) if (has_kind(op->args[k], 'Z')) alias = 1;
+    X("sig=%s line=%zu what=print_to_with died (wait status %d): %s", alias ? "fmt-alias" : "fmt-crash", line, st,
+      alias ? "the String sink is one of its own arguments — String_Format_To / String_Show read the buffer they reallocate" : "no aliasing involved");
+  }
+}
+
 int main(int argc, char** argv) {
   v_init();
   if (argc < 2) { fprintf(stderr, "usage: h_fmt <opfile>\n"); return 2; }
@@ -562,8 +714,9 @@ int main(int argc, char** argv) {
     if (v_skippable(l)) continue;
     char* copy = strdup(l); char** tok; int ntok = split(copy, &tok);
     OpD op; int k = 0; int ok = 0;
-    if (ntok > 0 && (!strcmp(tok[0], "P") || !strcmp(tok[0], "K") || !strcmp(tok[0], "J"))) {
+    if (ntok > 0 && (!strcmp(tok[0], "P") || !strcmp(tok[0], "K") || !strcmp(tok[0], "J") || !strcmp(tok[0], "A"))) {
       ok = parse_op(tok, ntok, &k, &op);
+      if (ok && tok[0][0] != 'A') for (int j = 0; j < op.nargs; j++) if (has_kind(op.args[j], 'Z')) ok = 0;     /* the sink as an argument: op A only */
       /* the table: T <n> then 3n tokens — checked for shape only */
       if (ok) {
         int64_t m;
@@ -580,7 +733,7 @@ int main(int argc, char** argv) {
           buf_free(&t);
         } else ok = 0;
       }
-      if (!ok) O("bad-op"); else if (tok[0][0] == 'J') run_J(&op, li + 1); else run_P(&op, li + 1, tok[0][0] == 'K', 0);
+      if (!ok) O("bad-op"); else if (tok[0][0] == 'J') run_J(&op, li + 1); else if (tok[0][0] == 'A') run_A(&op, li + 1); else run_P(&op, li + 1, tok[0][0] == 'K', 0);
       op_free(&op);
     } else if (ntok > 0 && !strcmp(tok[0], "M")) {
       ok = parse_op(tok, ntok, &k, &op) && k == ntok;
